@@ -380,7 +380,7 @@ func (x *explorer) check(prefix []int, res *vsched.Result) {
 		}
 	}
 	for _, v := range viol {
-		if x.sc.Prop != "" && !strings.HasPrefix(v.Key, x.sc.Prop+"/") && !strings.HasPrefix(v.Key, "panic|") {
+		if x.sc.Prop != "" && !strings.HasPrefix(v.Key, x.sc.Prop+"/") && !strings.HasPrefix(v.Key, "panic|") && !strings.HasPrefix(v.Key, "dispatch|") {
 			continue
 		}
 		if x.keys[v.Key] {
@@ -450,7 +450,7 @@ func (x *explorer) onceCheck(res *vsched.Result) {
 	}
 	x.outcomes[sha256.Sum256([]byte(strings.Join(res.Obs, "\n")))] = struct{}{}
 	for _, v := range viol {
-		if x.sc.Prop != "" && !strings.HasPrefix(v.Key, x.sc.Prop+"/") && !strings.HasPrefix(v.Key, "panic|") {
+		if x.sc.Prop != "" && !strings.HasPrefix(v.Key, x.sc.Prop+"/") && !strings.HasPrefix(v.Key, "panic|") && !strings.HasPrefix(v.Key, "dispatch|") {
 			continue
 		}
 		if x.keys[v.Key] {
